@@ -57,6 +57,15 @@ def trigger_cases(ctx, shapes, prefix="g"):
         else:
             text = plssdoc.render_doc(doc, ctx.rng)
             cfg = ctx.rng.choice([None, "segment", "sec_colon_cautious", "parse_qq", "parse_qq", "clean_qq,parse_qq"])
+        if ctx.rng.random() < 0.12:
+            # the wording stands outside the description proper - before the first / after the last Twp/Rge -, where
+            # `segment` has no chunk for it (§8 #12): it warrants the warning all the same
+            for b in ids:
+                doc["blocks"][b] = ctx.rng.choice(PLAIN_BLOCKS)
+            extra = "%s %s" % (cap, TAILS[kind])
+            body = plssdoc.render_doc(doc, ctx.rng)
+            text = (extra + ", " + body) if doc["layout"] in ("TRS_desc", "TR_desc_S") else (body + ", " + extra)
+            cfg = ctx.rng.choice(["segment", "segment", "segment,parse_qq", None])
         cases.append({"id": "%s%d" % (prefix, i), "kind": "plss", "origin": "trigger placement", "abs": {},
                       "args": {"text": text, "config": cfg, "source": "SRC-1", "post": ctx.rng.choice(POSTS),
                                "triggers": [{"kind": kind, "phrase": key}]}})
@@ -88,7 +97,7 @@ def run(ctx):
     ctx.rule = ("(a) token sequences of spec/PlssDesc.tla up to %d tokens x 15 configurations, (b) seeded soup x random "
                 "configurations (typing, pairing, hand-down, flawed <=> error flag, error TRS => error flag), (c) documents "
                 "(shapes from spec/PlssDoc.tla) with one of 12 trigger phrases placed at the start / middle / end of a random "
-                "block x 6 configurations (warning of that kind raised, trigger word in its context), a share of (b) and (c) observed after a re-parse (parse_tracts / parse / Tract.parse); non-trivial = distinct "
+                "block (12%% of them outside the description proper: before the first / after the last Twp/Rge) x 6 configurations (warning of that kind raised, trigger word in its context), a share of (b) and (c) observed after a re-parse (parse_tracts / parse / Tract.parse); non-trivial = distinct "
                 "(text, configuration)" % (4 if thorough else 3))
     ctx.assumptions += ["flags are compared as multisets, flag/line pairing by first tuple component (R2)",
                         "trigger placements are inside description blocks of documented layouts (text that `segment` "
